@@ -17,6 +17,7 @@ type Enc struct {
 	structInfo  map[string]*types.Struct
 
 	heaps     map[string]string // heap name -> element sort
+	heapTypes map[string]types.Type
 	heapOrder []string
 
 	typeConsts map[string]types.Type // T_xxx -> Go type
@@ -41,7 +42,7 @@ func NewEnc(w *World) *Enc {
 	return &Enc{
 		w:          w,
 		structSort: map[string]string{}, structInfo: map[string]*types.Struct{},
-		heaps: map[string]string{}, typeConsts: map[string]types.Type{},
+		heaps: map[string]string{}, heapTypes: map[string]types.Type{}, typeConsts: map[string]types.Type{},
 		strLits: map[string]string{}, boxes: map[string]bool{},
 		implPreds: map[string]*types.Interface{}, declared: map[string]bool{},
 		mangleMap: map[string]string{}, mangleUse: map[string]string{},
@@ -189,6 +190,7 @@ func (e *Enc) HeapFor(t types.Type) string {
 	name := "H_" + e.mangle(key)
 	if _, ok := e.heaps[name]; !ok {
 		e.heaps[name] = e.SortOf(t)
+		e.heapTypes[name] = t
 		e.heapOrder = append(e.heapOrder, name)
 	}
 	return name
